@@ -233,6 +233,18 @@ Example replace_spec_example :
   op_replace [97; 97; 97; 98; 97; 97] [97; 97] [120] = [120; 97; 98; 120].
 Proof. exact replace_pieces_example. Qed.
 
+(* T4 replace with the empty pattern: the replacement goes before every character and after the last
+   one (never inside a character), the result is valid text, and an empty replacement gives the string back *)
+Theorem replace_empty_pattern_spec : forall s r, valid_utf8 s ->
+  (exists cs, forallb wf_char cs = true /\ concat cs = s /\
+              op_replace s [] r = r ++ concat (map (fun c => c ++ r) cs)) /\
+  (valid_utf8 r -> valid_utf8 (op_replace s [] r)) /\ op_replace s [] [] = s.
+Proof.
+  intros s r V. destruct (replace_empty_lemma s r V) as [cs [F [E [R [_ I]]]]].
+  split; [exists cs; auto|]. split; [apply replace_empty_valid; exact V | exact I].
+Qed.
+Print Assumptions replace_empty_pattern_spec.
+
 (* the overlapping case: the ends must not be located independently *)
 Example trim_overlap : trim_end_matches [97; 97] (trim_start_matches [97; 97] [97; 97; 97]) = [97] /\
   trim_end_matches [97; 97] [97; 97; 97] = [97] /\ trim_start_matches [97; 97] [97; 97; 97] = [97].
